@@ -124,6 +124,9 @@ func (dist *PoissonDistribution) ImportConfig(config ConfigDistribution, t Scala
   if parameters, ok := config.GetParametersAsFloats(); !ok {
     return fmt.Errorf("invalid config file")
   } else {
+    if len(parameters) != 1 {
+      return fmt.Errorf("invalid config file")
+    }
     lambda := NewScalar(t, parameters[0])
 
     if tmp, err := NewPoissonDistribution(lambda); err != nil {
